@@ -106,3 +106,7 @@ def gen(rng, tier, mult=1):
         if rng.random() < 0.8:
             case["dst"] = rng.choice(["::1", "::ffff:192.0.2.1", "2001:db8::5", "fe80::1"])
         yield case
+
+
+import http_common  # noqa: E402
+http_common.plug_http(globals(), ID)
